@@ -421,7 +421,7 @@ def generate(ctx):
 
     # -- random seeds x random paths x 4 curves
     k = 0
-    total = ctx.n(260, 6000)
+    total = ctx.n(700, 10000)
     while k < total and ctx.time_left():
         k += 1
         curve = rng.choice([0, 0, 1, 1, 2, 3])
